@@ -217,7 +217,11 @@ StepBusLr(s, b, call) ==
           ELSE IF Len(b.r) >= 6 THEN                                      \* status: how the operation ended
               LET f == b.r[5] * 256 + b.r[6]
                   has(m) == (f \div m) % 2 = 1
-                  done == CASE s.cm = "tx" -> has(4) \/ has(1024)
+                  \* the driver's documented assumption about this chip - the flags may already be cleared when the
+                  \* status is read after the interrupt line fired, an all-zero word then means the transmission is
+                  \* over - is taken as the chip's behaviour
+                  f32 == ((b.r[3] * 256 + b.r[4]) * 256 + b.r[5]) * 256 + b.r[6]
+                  done == CASE s.cm = "tx" -> has(4) \/ has(1024) \/ f32 = 0
                             [] s.cm = "rx" -> has(8) \/ has(1024)
                             [] s.cm = "cad" -> has(256)
                             [] OTHER -> FALSE
@@ -284,7 +288,9 @@ FaultOnStandbyCmd(e) ==
 S23(e, s) ==
     /\ Failed(e) /\ ~IsRefusal(e) /\ ~ContRx(e)
     /\ ~(s.cm = "stdby" /\ e.mode = "standby") /\ ~FaultOnStandbyCmd(e)
-    /\ e.fault >= 0 /\ IsAllowed("phy-fault-no-standby:" \o e.call)
+    /\ e.fault >= 0
+    /\ IF e.mode = "standby" /\ s.cm # "stdby" THEN IsAllowed("phy-fault-false-standby:" \o e.call)
+       ELSE IsAllowed("phy-fault-no-standby:" \o e.call)
 
 CallOk(e, s) ==
     \* clause 1
@@ -297,6 +303,15 @@ CallOk(e, s) ==
     \* clause 4
     /\ IF Failed(e) /\ ~IsRefusal(e) /\ ~ContRx(e)
        THEN IF s.cm = "stdby" /\ e.mode = "standby" THEN TRUE
+            \* whatever went wrong, the driver must not come out BELIEVING standby while the chip is somewhere else:
+            \* that belief makes every later call skip the standby command.  Not excused by where the fault hit, and a
+            \* finding of its own kind (S23 lists the calls that keep the mode they had or were about to enter; the
+            \* false belief is listed per call under phy-fault-false-standby)
+            ELSE IF e.mode = "standby" /\ s.cm # "stdby"
+                 THEN IF e.fault >= 0 /\ IsAllowed("phy-fault-false-standby:" \o e.call)
+                      THEN Known("phy-fault-false-standby:" \o e.call, <<e.err, "fault", e.fault, "chip", s.cm>>)
+                      ELSE ChkT(<<"C14-4 after a failed operation the driver believes standby while the chip is not", e.call, e.err,
+                                  "fault at", e.fault, "chip", s.cm>>, FALSE)
             ELSE IF FaultOnStandbyCmd(e) THEN TRUE
             \* KNOWN FINDING (open, DESIGN 9 S23): an injected bus fault (not a timeout / interrupt error, which the
             \* driver handles) returns without forcing standby; listed per API call
@@ -317,7 +332,8 @@ Ev(e) ==
             \* history) and validation continues with the chip model stepped by what was really sent
             /\ IF CallOk(e, s) THEN TRUE ELSE TRUE
             /\ cm' = s.cm /\ prog' = s.prog
-            /\ taint' = IF S23(e, s) \/ (FaultOnStandbyCmd(e) /\ e.res = "err") THEN "phy-fault-no-standby:" \o e.call ELSE t0
+            /\ taint' = IF S23(e, s) /\ e.mode = "standby" /\ s.cm # "stdby" THEN "phy-fault-false-standby:" \o e.call
+                        ELSE IF S23(e, s) \/ (FaultOnStandbyCmd(e) /\ e.res = "err") THEN "phy-fault-no-standby:" \o e.call ELSE t0
 
 Init == l = 1 /\ cm = "stdby" /\ prog = {} /\ taint = ""
 Next == l <= Len(Rec) /\ Ev(Rec[l]) /\ l' = l + 1
